@@ -138,7 +138,7 @@ StepGen(ev) ==
                                                           rate |-> Rate, emu |-> X.cfg.emu, fam |-> X.cfg.fam, keyed |-> X.kd, lost_writes |-> X.ovf]))>>
               ELSE <<>>
         mf == ModelFreq
-        pdrift == pitchJ /\ repr /\ mf > 0 /\ Abs(ev.zc[2] - mf) * 1000 > 2 * mf
+        pdrift == pitchJ /\ repr /\ mf > 0 /\ Abs(ev.zc[2] - mf) > (3 * mf) \div 1000
         allf == f1 \o f2 \o f3
     IN
     /\ X' = [X EXCEPT !.st = acc.st, !.age = X.age + nfr, !.rs = run.s, !.pend = pend1, !.fresh = FALSE,
